@@ -70,6 +70,7 @@ func init() {
 		Blank:    func() any { return &C04Scenario{} },
 		Run:      func(sc any, tr *kit.Trace) *kit.Result { return runC04(sc.(*C04Scenario), tr) },
 		Shrink:   shrinkC04,
+		Warmup:   true, // background prefetch workers run in parallel with more than one P
 		PerChunk: 10,
 		Quick:    1200,
 		Thorough: 100000,
